@@ -122,9 +122,9 @@ Qed.
 (* ---- facts about each operation ---------------------------------------------------- *)
 Definition wf_op (st : tstate) (o : op) : Prop :=
   match o with
-  | WElem e => wf_elem e = true
-  | WRaw e => wf_elem e = true /\ ts_last st <> None
-  | WStr s => forallb wf_elem s = true
+  | WElem e => wf_elem_c e = true
+  | WRaw e => wf_elem_c e = true /\ ts_last st <> None
+  | WStr s => forallb wf_elem_c s = true
   | Move p => inside p (ts_size st) = true
   | Title t => wf_title t = true
   | SetSize _ => False
@@ -138,17 +138,64 @@ Definition adv (w : N) (c : option pt) : option pt :=
   end.
 
 (* the glyphs a sequence of element writes places: one trace entry per
-   element, in order, each showing exactly the requested element; when the
-   cursor position is known the entry is at that position *)
+   element that is not a control character, in order, each showing exactly the
+   requested element; when the cursor position is known the entry is at that
+   position.  A control character (newline, tab, ...) places nothing and
+   leaves the position unknown to the library. *)
 Inductive placed (w : N) : option pt -> list element -> list (pt * cell) -> Prop :=
 | placed_nil c : placed w c [] []
 | placed_cons c e es q tr :
+    is_control_glyph (eg e) = false ->
     (forall p, c = Some p -> q = p) ->
     placed w (adv w c) es tr ->
-    placed w c (e :: es) ((q, display_of e) :: tr).
+    placed w c (e :: es) ((q, display_of e) :: tr)
+| placed_ctl c e es tr :
+    is_control_glyph (eg e) = true ->
+    placed w None es tr ->
+    placed w c (e :: es) tr.
+
+Lemma wf_elem_c_cases e : wf_elem_c e = true ->
+  wf_elem e = true \/
+  (format_effector (eg e) = true /\ wf_colour (fg (ea e)) = true /\ wf_colour (bg (ea e)) = true).
+Proof.
+  unfold wf_elem_c, wf_elem. intros H. apply andb_prop in H as [H Hb]. apply andb_prop in H as [H Hf].
+  apply orb_prop in H as [H|H]; [left; rewrite H, Hf, Hb; reflexivity|right; repeat split; assumption].
+Qed.
+
+Lemma wf_elem_wf_elem_c e : wf_elem e = true -> wf_elem_c e = true.
+Proof.
+  unfold wf_elem_c, wf_elem. intros H. apply andb_prop in H as [H Hb]. apply andb_prop in H as [H Hf].
+  rewrite H, Hf, Hb. reflexivity.
+Qed.
+
+Lemma wf_elem_not_control e : wf_elem e = true -> is_control_glyph (eg e) = false.
+Proof.
+  unfold wf_elem. intros H. apply andb_prop in H as [H _]. apply andb_prop in H as [H _].
+  exact (displayable_not_control _ H).
+Qed.
+
+Lemma sync_write_element_c st v e l :
+  Sync st v -> ts_last st = Some l -> wf_elem_c e = true ->
+  let st' := fst (write_element beh st e) in
+  let v' := vt_execs cfg v (snd (write_element beh st e)) in
+  Sync st' v' /\ modes_of v' = modes_of v /\
+  exists tr, placed (fst (ts_size st)) (ts_cur st) [e] tr /\ trace v' = rev tr ++ trace v.
+Proof.
+  intros S El He. apply wf_elem_c_cases in He. destruct He as [He|(Hfe & Hfg & Hbg)].
+  - pose proof (sync_write_element cfg beh Huni st v e l S El He) as H. cbv zeta in H.
+    destruct H as [S1 [[q [Htr Hq]] [Hm _]]].
+    split; [exact S1|]. split; [exact Hm|].
+    exists [(q, display_of e)]. split; [|exact Htr].
+    constructor; [exact (wf_elem_not_control _ He)|exact Hq|constructor].
+  - pose proof (sync_write_control cfg beh Huni st v e l S El Hfe Hfg Hbg) as H. cbv zeta in H.
+    destruct H as (S1 & Htr & Hm & _).
+    split; [exact S1|]. split; [exact Hm|].
+    exists []. split; [|exact Htr].
+    apply placed_ctl; [eapply format_effector_control; eassumption|constructor].
+Qed.
 
 Lemma sync_write_elements : forall es st v,
-  Sync st v -> ts_last st <> None -> forallb wf_elem es = true ->
+  Sync st v -> ts_last st <> None -> forallb wf_elem_c es = true ->
   let st' := fst (write_elements beh st es) in
   let v' := vt_execs cfg v (snd (write_elements beh st es)) in
   Sync st' v' /\ modes_of v' = modes_of v /\
@@ -161,6 +208,27 @@ Proof.
     split; [exact Hl|]. exists []. split; [constructor|reflexivity].
   - cbn [forallb] in Hwf. apply andb_prop in Hwf as [He Hes].
     destruct (ts_last st) as [l|] eqn:El; [|congruence].
+    apply wf_elem_c_cases in He. destruct He as [He|(Hfe & Hfg & Hbg)].
+    2:{ (* a format effector: nothing placed, position forgotten *)
+      pose proof (sync_write_control cfg beh Huni st v e l S El Hfe Hfg Hbg) as H. cbv zeta in H.
+      destruct H as (S1 & Htr & Hm & Hcur1).
+      cbn [write_elements].
+      destruct (write_element beh st e) as [st1 c1] eqn:E1. cbn [fst snd] in S1, Htr, Hm, Hcur1.
+      assert (Hl1 : ts_last st1 <> None /\ ts_size st1 = ts_size st).
+      { assert (st1 = fst (write_element beh st e)) by (rewrite E1; reflexivity).
+        subst st1. unfold write_element. cbn [fst].
+        destruct (advance_other (set_last st (Some e)) (eg e)) as (Asz & Ala & _). rewrite Ala, Asz. cbn.
+        split; [discriminate|reflexivity]. }
+      destruct Hl1 as [Hl1 Hsz1].
+      specialize (IH st1 (vt_execs cfg v c1) S1 Hl1 Hes). cbv zeta in IH.
+      destruct (write_elements beh st1 es) as [st2 c2] eqn:E2. cbn [fst snd] in IH |- *.
+      destruct IH as (S2 & Hm2 & _ & Hl2 & tr & Hpl & Htr2).
+      rewrite vt_execs_app.
+      split; [exact S2|]. split; [rewrite Hm2; exact Hm|]. split; [intros _; exact Hl2|].
+      split; [exact Hl2|].
+      exists tr. split.
+      + apply placed_ctl; [eapply format_effector_control; eassumption|]. rewrite <- Hcur1, <- Hsz1. exact Hpl.
+      + rewrite Htr2, Htr. reflexivity. }
     pose proof (sync_write_element cfg beh Huni st v e l S El He) as H. cbv zeta in H.
     destruct H as [S1 [[q [Htr Hq]] [Hm Hcells]]].
     cbn [write_elements].
@@ -182,7 +250,7 @@ Proof.
     split; [exact S2|]. split; [rewrite Hm2; exact Hm|]. split; [intros _; exact Hl2|].
     split; [exact Hl2|].
     exists ((q, display_of e) :: tr). split.
-    + constructor; [exact Hq|]. rewrite <- Hcur1, <- Hsz1. exact Hpl.
+    + constructor; [exact (wf_elem_not_control _ He)|exact Hq|]. rewrite <- Hcur1, <- Hsz1. exact Hpl.
     + rewrite Htr2, Htr. cbn [rev]. rewrite <- app_assoc. reflexivity.
 Qed.
 
